@@ -136,6 +136,22 @@ func (c *Case) negIdle() int {
 	return c.S.IdleMs
 }
 
+// effIdle is the idle period endpoint e ("c"/"s") really applies: the in-tree implementation raises a peer's
+// advertised max_idle_timeout below 5 s to 5 s (protocol.MinRemoteIdleTimeout) before taking the minimum.
+func (c *Case) effIdle(e string) int {
+	own, peer := c.C.IdleMs, c.S.IdleMs
+	if e == "s" {
+		own, peer = peer, own
+	}
+	if peer < 5000 {
+		peer = 5000
+	}
+	if own < peer {
+		return own
+	}
+	return peer
+}
+
 func (c *Case) keepAliveOn() bool { return c.C.KeepAlive != "off" || c.S.KeepAlive != "off" }
 
 // normalize makes the generated case self-consistent (also applied to replayed cases, where it is a no-op).
@@ -161,6 +177,24 @@ func normalize(c *Case) {
 		// natural idle timeout: nothing is sent any more, no keep-alives
 		c.C.KeepAlive, c.S.KeepAlive = "off", "off"
 		c.AtMs = 0
+		if c.Phase == "transfer" {
+			c.Phase, c.XferDir = "armed", ""
+		}
+	}
+	if c.Phase == "transfer" && c.AtMs > 300 {
+		c.AtMs = 300 // a bulk transfer costs real time
+	}
+	if c.Phase == "edge" {
+		c.AtMs, c.TruncLen = 0, 0
+		for _, s := range []*Side{&c.C, &c.S} {
+			var keep []string
+			for _, b := range s.Blocked {
+				if b != "write" && b != "open" && b != "openuni" {
+					keep = append(keep, b)
+				}
+			}
+			s.Blocked = keep
+		}
 	}
 }
 
